@@ -379,33 +379,38 @@ def spec_sizes(spec):
 
 
 def allocs_ok(model_events, impl_raw, sizes):
-    """the model's allocation log against the raw request sizes of the real run (element sizes from size_of)"""
+    """the model's allocation log against the raw request sizes of the real run.  The model's events carry counts, not element
+    types, so an event is matched against the request by element size (any declared size_of); a vector or box of a zero-sized type
+    (a union with only void arms, ...) does not allocate, so such an event may also match nothing.  Backtracking, memoised."""
     szs = set(sizes.values())
-    i = 0
+    nz = sorted(x for x in szs if x > 0)
+    zst = 0 in szs
+    evs = []
     for ev in model_events:
         kind, _, n = ev.partition(":")
-        n = int(n) if n else 0
+        evs.append((kind, int(n) if n else 0))
+    raw = [int(x) for x in impl_raw]
+    import functools, sys
+    sys.setrecursionlimit(max(10000, 4 * (len(evs) + len(raw)) + 100))
+
+    @functools.lru_cache(maxsize=None)
+    def go(i, j):
+        if i == len(evs):
+            return j == len(raw)
+        kind, n = evs[i]
         if kind == "vec":
             if n == 0:
-                continue
-            if i < len(impl_raw) and int(impl_raw[i]) % n == 0 and int(impl_raw[i]) // n in szs and int(impl_raw[i]) > 0:
-                i += 1
-            elif 0 in szs:
-                continue            # a vector of zero-sized elements does not allocate
-            else:
-                return False
-        elif kind == "str":
+                return go(i + 1, j)
+            if j < len(raw) and raw[j] > 0 and raw[j] % n == 0 and raw[j] // n in szs and go(i + 1, j + 1):
+                return True
+            return zst and go(i + 1, j)
+        if kind == "str":
             if n == 0:
-                continue
-            if i < len(impl_raw) and n <= int(impl_raw[i]) <= max(8, n + 1):
-                i += 1
-            else:
-                return False
-        elif kind == "box":
-            if i < len(impl_raw) and int(impl_raw[i]) in szs:
-                i += 1
-            elif 0 in szs:
-                continue
-            else:
-                return False
-    return i == len(impl_raw)
+                return go(i + 1, j)
+            return j < len(raw) and n <= raw[j] <= max(8, n + 1) and go(i + 1, j + 1)
+        if kind == "box":
+            if j < len(raw) and raw[j] in szs and raw[j] > 0 and go(i + 1, j + 1):
+                return True
+            return zst and go(i + 1, j)
+        return False
+    return go(0, 0)
